@@ -56,6 +56,49 @@ func init() {
 			}
 		}
 	}
+	// near-maximal fields: for every presence subset with private data (and/or extension), lengths that
+	// leave 0..6 bytes of room in a 183-byte field (length bytes and data close to the end of the packet)
+	for mask := 0; mask < 32; mask++ {
+		if mask&3 == 0 {
+			continue
+		}
+		for _, e := range []int{-1, 0, 1, 3} {
+			if (e >= 0) != (mask&1 != 0) {
+				continue
+			}
+			for slack := 0; slack <= 6; slack++ {
+				var a ref.AF
+				a.RAI = mask%2 == 0
+				if mask&16 != 0 {
+					a.PCR = ref.PCRBytes(uint64(mask)*300*90000 + 17)
+				}
+				if mask&8 != 0 {
+					a.OPCR = ref.PCRBytes(uint64(mask) * 12345)
+				}
+				if mask&4 != 0 {
+					a.Splice = []byte{byte(0xF0 | mask)}
+				}
+				if e >= 0 {
+					a.Ext = c03Data(0xE0, e)
+				}
+				if mask&2 != 0 {
+					a.Private = []byte{}
+					room := 183 - a.ContentLen() - slack
+					if room < 0 {
+						continue
+					}
+					a.Private = c03Data(0xA0, room)
+				} else {
+					room := 183 - a.ContentLen() + len(a.Ext) - slack
+					if room < 0 || room > 255 {
+						continue
+					}
+					a.Ext = c03Data(0xE0, room)
+				}
+				c02Combos = append(c02Combos, c02Combo{a, c03Show(&a)})
+			}
+		}
+	}
 }
 
 var c02Headers = []ref.Header{
@@ -374,6 +417,19 @@ func c02CheckCreate(c c02CreateCase) engine.Result {
 						}
 						p := packet.Create(pid, o...)
 						basic("Create", p, pid, -1, mask&1 != 0)
+						// options passed as a sub-slice with spare capacity: Create must not write into the
+						// caller's option list (a later call with the full list would lose a flag)
+						if order == 0 && pid%64 == 0 {
+							all := []func(*packet.Packet){packet.WithHasPayloadFlag, packet.WithPUSI, packet.WithHasAdaptationFieldFlag, packet.WithHasPayloadFlag}
+							for k := 0; k < 4; k++ {
+								packet.Create(pid, all[:k]...)
+							}
+							q := packet.Create(pid, all[:3]...)
+							hq := ref.ParseHeader(q[:4])
+							if !hq.PUSI || hq.AFC != 3 || hq.Sync != 0x47 {
+								res.Failf("Create|caller-option-slice-modified", "after calls with prefixes of one option slice, Create(all) gives pusi %v afc %d", hq.PUSI, hq.AFC)
+							}
+						}
 						h := ref.ParseHeader(p[:4])
 						if h.PUSI != (mask&2 != 0) || (h.AFC&2 == 2) != (mask&4 != 0) {
 							res.Failf("Create|flags", "mask %d: pusi %v afc %d", mask, h.PUSI, h.AFC)
@@ -477,7 +533,7 @@ func init() {
 		Scenarios: []engine.ScenarioRunner{
 			&engine.Enum[c02Case]{
 				Name: "setpayload",
-				Rule: "case = well-formed packet shape: adaptation field none / length 0..182 with payload / 183 adaptation-field-only x optional-field combination (all 32 presence subsets x private/extension lengths {0,1,3} that fit) x header pattern x old-payload fill (quick: 4 paired header/fill patterns; thorough: all 16); Check runs the partition accessors on the packet, SetPayload with every length 0..200 x 2 contents (exact reference packet, count, partition/read-back, independence of the method-form copy) and a second SetPayload of 8 boundary lengths on 7 of the results",
+				Rule: "case = well-formed packet shape: adaptation field none / length 0..182 with payload / 183 adaptation-field-only x optional-field combination (all 32 presence subsets x private/extension lengths {0,1,3} that fit, plus near-maximal private data / extension leaving 0..6 bytes of room in the packet) x header pattern x old-payload fill (quick: 4 paired header/fill patterns; thorough: all 16); Check runs the partition accessors on the packet, SetPayload with every length 0..200 x 2 contents (exact reference packet, count, partition/read-back, independence of the method-form copy) and a second SetPayload of 8 boundary lengths on 7 of the results",
 				Gen: func(r *engine.Run, emit func(c02Case)) {
 					for afLen := -1; afLen <= 183; afLen++ {
 						for combo := range c02Combos {
